@@ -180,6 +180,10 @@ def legacy_find_clashes(chk, fi, radii, c) -> None:
         alt = t.replace(" is True", "")
         chk.expect(seen.get(opt) in ([t], [alt]), "option-filter", fi.site(loop), f"{opt} guards exactly `{t.split(' and ')[1]}`", f"option {opt} is not wired to its own filter (`{t}`): found {seen.get(opt)}", K(fi, f"option:{opt}"), expected=t, found=seen.get(opt))
     for s in extra:
+        n_opts = sum(1 for p in ("ignore_autoclashes", "require_same_atom_name", "ignore_occupancy", "nucleic_acid_only", "enable_molprobity_mode") if p in astq.names(s.test))
+        if n_opts >= 2:  # several filters merged into one test: not readable in the pinned form (the fact-level reading decides it)
+            chk.error("option-extra-filter", fi.site(s), f"filter `if {norm(s.test)[:70]}: continue` combines {n_opts} options: not readable in the pinned form")
+            continue
         chk.violation("option-extra-filter", fi.site(s), f"additional filter `if {norm(s.test)[:70]}: continue` in the clash loop", K(fi, f"extra:{norm(s.test)[:50]}"))
     chk.ok("option-extra-filter", fi.site(loop), "only the autoclash, same-name and distance filters skip a pair")
     # occupancy rule and record
@@ -274,22 +278,33 @@ def legacy_find_clashes(chk, fi, radii, c) -> None:
                 chk.expect(not bad2, "collection", fi.site(al), "an atom is registered (residue, atom, coordinates in parallel) iff it matches one of the four types", bad2[0] if bad2 else "", K(fi, "collection-atoms"))
 
 
+def legacy_cli_arguments(chk, mn, params) -> None:
+    """Pinned form of `cli-arguments` (fallback when main cannot be evaluated): positional `args.<parameter name>`."""
+    calls = astq.calls(mn.node, "find_clashes")
+    ok = False
+    found = None
+    readable = False
+    if len(calls) == 1:
+        args = calls[0].args
+        found = [norm(a) for a in args] + [f"{k.arg}={norm(k.value)}" for k in calls[0].keywords]
+        readable = all(norm(a).startswith("args.") for a in args[1:]) and all(k.arg is not None and norm(k.value).startswith("args.") for k in calls[0].keywords)
+        bound = dict(zip(params, [norm(a) for a in args]))
+        bound.update({k.arg: norm(k.value) for k in calls[0].keywords if k.arg is not None})
+        ok = readable and len(args) <= len(params) and bound.get(params[0]) == "structure3d.residues" and all(bound.get(p) == f"args.{p}" for p in params[1:])
+    if not ok and not readable:
+        chk.error("cli-arguments", mn.where, f"arguments of find_clashes not understood: {found}")
+    else:
+        chk.expect(ok, "cli-arguments", mn.where, "every option is passed to the parameter of the same name", "CLI options are not passed to find_clashes parameters of the same name (mix-up)", K(mn, "cli-args"), expected=["structure3d.residues"] + [f"args.{p}" for p in params[1:]], found=found)
+    flags = sorted(a.args[0].value for a in astq.calls(mn.node, "add_argument") if a.args and isinstance(a.args[0], ast.Constant) and any(k.arg == "action" and norm(k.value) == "'store_true'" for k in a.keywords))
+    chk.expect(flags == sorted("--" + p.replace("_", "-") for p in params[1:]), "cli-arguments", mn.where, "one boolean switch per option", "the set of boolean switches differs from find_clashes' options", K(mn, "cli-flags"), found=flags)
+
+
 def check_cli(chk, fi) -> None:
     repo = chk.repo
     # ---- CLI -----------------------------------------------------------------------------------------------
     mn = repo.func(M, "main")
     chk.note_function(mn)
-    calls = astq.calls(mn.node, "find_clashes")
     params = [a.arg for a in fi.node.args.args]
-    ok = False
-    found = None
-    if len(calls) == 1:
-        args = calls[0].args
-        found = [norm(a) for a in args]
-        ok = len(args) == len(params) and norm(args[0]) == "structure3d.residues" and all(norm(a) == f"args.{p}" for a, p in zip(args[1:], params[1:])) and not calls[0].keywords
-    chk.expect(ok, "cli-arguments", mn.where, "every option is passed to the parameter of the same name", "CLI options are not passed to find_clashes parameters of the same name (positional mix-up)", K(mn, "cli-args"), expected=["structure3d.residues"] + [f"args.{p}" for p in params[1:]], found=found)
-    flags = sorted(a.args[0].value for a in astq.calls(mn.node, "add_argument") if a.args and isinstance(a.args[0], ast.Constant) and any(k.arg == "action" and norm(k.value) == "'store_true'" for k in a.keywords))
-    chk.expect(flags == sorted("--" + p.replace("_", "-") for p in params[1:]), "cli-arguments", mn.where, "one boolean switch per option", "the set of boolean switches differs from find_clashes' options", K(mn, "cli-flags"), found=flags)
     # CSV: read_metadata(file: IO) needs an open file (it uses file.name), not the path string
     for c2 in astq.calls(mn.node, "read_metadata"):
         a0 = c2.args[0] if c2.args else None
@@ -309,7 +324,9 @@ def check_cli(chk, fi) -> None:
     # report and CSV: fact-level first (main evaluated on a representative clash list), pinned forms as the fallback
     from checks import c17e
 
-    why = c17e.check_main(chk, mn)
+    why = c17e.check_main(chk, mn, fi)  # incl. the fact-level `cli-arguments` (evaluated call of find_clashes)
+    if why is not None:
+        legacy_cli_arguments(chk, mn, params)
     # accumulators read what they write
     n_acc = 0
     for s in ast.walk(mn.node):
